@@ -3,7 +3,7 @@
 From BV Require Import Base.Prelude Model.Block Model.ForkDB Model.Forkable Model.ForkableLookups
   Model.Burst Model.Hub Model.CursorResolver Model.Joining
   Spec.Consumer Spec.Universe Check.Burst_Check Check.C07_Check Spec.C06_Spec Spec.C07_Spec Spec.C09_Spec
-  Spec.C13_Spec Spec.C07_Compose_Spec Spec.C07_TargetUnfixed_Spec
+  Spec.C13_Spec Spec.C07_Compose_Spec Spec.C07_Shapes_Spec Spec.C07_More_Spec Spec.C07_TargetUnfixed_Spec
   Proofs.C07_ComposeCheck Proofs.C07_FullRefuted.
 Local Open Scope N_scope.
 
@@ -47,3 +47,38 @@ Example tn_fixed_ok :
   | None => False
   end /\ snd res = JNil.
 Proof. vm_compute. split; reflexivity. Qed.
+
+(* ------------------------------------------------------------------ the cursor LIB hypothesis of c07_seamless_target *)
+
+(* chain 2..20; the hub gets 6..14, then the fork 13 <- 114 <- 115 (the canonical 14 stored off its chain), then 15..20 *)
+Definition off_w : world :=
+  mkW (hub_run 2 5 hub_init []) (map na_b [6;7;8;9;10;11;12;13;14] ++ [na_f14; na_f15] ++ map na_b [15;16;17;18;19;20]).
+Definition bl_cu : cursor := mkCursor SNew (mkR 14 14) (mkR 14 14) (mkR 12 14).
+Definition bl_c : jcfg := mkJ 2 5 10 2 5 (Some bl_cu) 0 0 0.
+
+Lemma c07_target_cursor_lib_needed_proof : C07_target_cursor_lib_needed.
+Proof.
+  exists na_U, bl_c, off_w, [(2, 11)], 10, na_canon, [], bl_cu, (na_b 14).
+  cbv zeta.
+  split; [vm_compute; reflexivity|]. split; [vm_compute; reflexivity|].
+  split.
+  { split.
+    - exists []. split; [intros b p []|reflexivity].
+    - intros b Hb. vm_compute in Hb. vm_compute. tauto. }
+  split.
+  { split.
+    - vm_compute. repeat split.
+    - apply (NoDup_map_inv (fun x => x)). rewrite map_id. vm_compute.
+      repeat (constructor; [cbn; intros K; repeat (destruct K as [K|K]; [discriminate|]); exact K|]). constructor. }
+  split; [intros b Hb; unfold na_U; apply in_or_app; left; exact Hb|].
+  split; [apply eventual_tip_b_sound; vm_compute; reflexivity|].
+  split; [reflexivity|]. split; [reflexivity|]. split; [reflexivity|]. split; [reflexivity|]. split; [reflexivity|].
+  split.
+  { apply Forall_forall. intros b Hb.
+    assert (H : forallb (fun b => bnum b <? file_bound) (filter (fun b => bnum b <? 10) na_canon) = true) by (vm_compute; reflexivity).
+    rewrite forallb_forall in H. apply N.ltb_lt. apply H. exact Hb. }
+  split; [vm_compute; tauto|]. split; [reflexivity|].
+  split; [exists (na_b 12); split; [vm_compute; tauto|]; split; [reflexivity | vm_compute; discriminate]|].
+  split; [exists (na_b 5); split; [vm_compute; tauto | vm_compute; reflexivity]|].
+  vm_compute. reflexivity.
+Qed.
